@@ -217,11 +217,21 @@ func (c *Conn) Write(p []byte) (int, error) {
 		if !c.wdeadline.IsZero() {
 			wait = time.After(time.Until(c.wdeadline))
 		}
-		select {
-		case <-wait:
-			return 0, timeoutErr{}
-		case <-c.closed:
-			return 0, net.ErrClosed
+		tick := time.NewTicker(time.Millisecond)
+		defer tick.Stop()
+	stalled:
+		for {
+			select {
+			case <-wait:
+				return 0, timeoutErr{}
+			case <-c.closed:
+				return 0, net.ErrClosed
+			case <-tick.C:
+				// the peer reads again before the deadline: the write goes through after all
+				if WriteMode(atomic.LoadInt32(&c.wmode)) != WriteStall {
+					break stalled
+				}
+			}
 		}
 	}
 	rec := WriteRec{T: time.Now(), Data: append([]byte(nil), p...)}
